@@ -218,11 +218,39 @@ func pr_NewStorage(metric string, series []pr_Series, withST bool) (*teststorage
 	return st, nil
 }
 
+// pr_LSeries is a stored series with an explicit label set (alternating name, value).
+type pr_LSeries struct {
+	Labels  []string    `json:"labels"`
+	Samples []pr_Sample `json:"samples"`
+}
+
 func pr_Load(st *teststorage.TestStorage, metric string, series []pr_Series) error {
+	ls := make([]pr_LSeries, len(series))
+	for i, se := range series {
+		ls[i] = pr_LSeries{Labels: []string{"__name__", metric, "d", se.ID}, Samples: se.Samples}
+	}
+	return pr_LoadLabeled(st, ls)
+}
+
+// pr_NewLabeledStorage opens a throw-away TSDB holding the given labelled series.
+func pr_NewLabeledStorage(series []pr_LSeries) (*teststorage.TestStorage, error) {
+	st, err := teststorage.NewWithError()
+	if err != nil {
+		return nil, err
+	}
+	st.DisableCompactions()
+	if err := pr_LoadLabeled(st, series); err != nil {
+		st.Close()
+		return nil, err
+	}
+	return st, nil
+}
+
+func pr_LoadLabeled(st *teststorage.TestStorage, series []pr_LSeries) error {
 	app := st.AppenderV2(context.Background())
 	n := 0
 	for _, se := range series {
-		l := labels.FromStrings("__name__", metric, "d", se.ID)
+		l := labels.FromStrings(se.Labels...)
 		for _, x := range se.Samples {
 			var err error
 			switch x.K {
@@ -235,7 +263,7 @@ func pr_Load(st *teststorage.TestStorage, metric string, series []pr_Series) err
 			}
 			if err != nil {
 				app.Rollback()
-				return fmt.Errorf("append %s %+v: %w", se.ID, x, err)
+				return fmt.Errorf("append %v %+v: %w", se.Labels, x, err)
 			}
 			n++
 		}
